@@ -43,7 +43,6 @@ CfgDefault == [ maxId      |-> 3,       \* session ids wrap after maxId (65535 i
                 inst |-> <<>>,         \* [instance -> [svc, egs (declared eventgroups), subs (service names of Subscribe entries it accepts)]]
                 ann0 |-> <<>>,         \* instances announced before the run
                 findMatch |-> <<>>,    \* [find filter -> set of service names it matches]
-                rejectCtr |-> {},      \* the server-side listener rejects subscriptions with these counters
                 stopTwice |-> FALSE,   \* the environment may stop an already stopped announcer
                 subTTL |-> 12, refresh |-> 4, \* SUBSCRIBE_TTL, SUBSCRIBE_REFRESH_INTERVAL (0 = None)
                 egs |-> <<>>,          \* [eventgroup name -> [ep |-> name of its local endpoint option]]
@@ -354,7 +353,7 @@ InstMatchesSub(i, en) == en.svc \in Cfg.inst[i].subs /\ en.eg \in Cfg.inst[i].eg
 InstSubscribe(s, i, src, en) ==
   IF s.inst[i].task = 0 \/ ~InstMatchesSub(i, en) THEN <<s, FALSE>>
   ELSE IF en.ttl = 0 THEN <<TSStop(s, i, src, SubKey(en)), TRUE>>
-  ELSE IF ~Has(s, i, src, SubKey(en)) /\ en.ctr \in Cfg.rejectCtr      \* listener raises NakSubscription
+  ELSE IF ~Has(s, i, src, SubKey(en)) /\ ~en.acc                       \* listener raises NakSubscription
        THEN <<QueueSend(Out(s, [k |-> "out", op |-> "subscribed", inst |-> i, sub |-> SubKey(en), src |-> src, acc |-> FALSE]),
                         src, AckEntry(en, IF Sw.AckBeforeListener THEN en.ttl ELSE 0)), TRUE>>
        ELSE <<QueueSend(TSRefresh(s, i, src, SubKey(en), en.ttl), src, AckEntry(en, en.ttl)), TRUE>>
@@ -587,10 +586,9 @@ Arrive(st, ins) ==    \* the I/O callbacks of this poll, appended in arrival ord
   ELSE LET r == Concretise(st, Head(ins))
        IN Arrive([r[1] EXCEPT !.ready = Append(@, [kind |-> "input", e |-> r[2]]), !.ev = @ + 1], Tail(ins))
 
-RECURSIVE Copies(_, _)
-Copies(x, n) == IF n = 0 THEN <<>> ELSE <<x>> \o Copies(x, n - 1)
-RECURSIVE TimerCbs(_)
-TimerCbs(tq) == IF tq = <<>> THEN <<>> ELSE Copies(Head(tq).cb, Head(tq).n) \o TimerCbs(Tail(tq))
+\* every due timer, once per multiplicity (identical timers may fire interleaved with others)
+DueCopies(st) == UNION {{<<x, c>> : c \in 1..x.n} : x \in Due(st)}
+TimerCbs(tq) == [i \in DOMAIN tq |-> tq[i][1].cb]
 
 \* interleavings of 1..a (kept in order) with a+1..a+b (kept in order)
 Merges(a, b) == {p \in Perms(1..(a + b)) :
@@ -600,7 +598,7 @@ Merges(a, b) == {p \in Perms(1..(a + b)) :
 Poll ==
   /\ s.todo = 0
   /\ \E ins \in {q \in UNION {[1..n -> Inputs] : n \in 0..MaxPerPoll} : Len(q) + s.ev <= MaxEv} :
-     \E tq \in Perms(Due(s)) :
+     \E tq \in Perms(DueCopies(s)) :
        /\ ins # <<>> \/ s.ready # <<>> \/ Due(s) # {}
        /\ AllApplicable(s, ins)
        \* (I/O arriving while the loop has nothing to run: the loop was idle at this point -- observable)
